@@ -14,13 +14,21 @@ from .. import genrun
 from .. import annetenv as E
 
 
-def mk_gen(name, path, prio, out, reload, safe):
+def mk_gen(name, path, prio, out, reload, safe, supports=True, how="class"):
     from annet.generators.entire import Entire
 
     def run(self, device):
         yield out
     attrs = {"path": lambda s, d: path, "run": run, "reload": lambda s, d: reload, "is_safe": lambda s, d: safe, "TAGS": []}
-    if prio != 100:
+    if not supports:
+        attrs["supports_device"] = lambda s, d: False       # the hook is overridable on its own: path() still names a file
+    if how == "instance":
+        # the priority is decided per instance (from the inventory, say) before delegating to Entire.__init__, which keeps a value it finds
+        def init(self, storage):
+            self.prio = prio
+            Entire.__init__(self, storage)
+        attrs["__init__"] = init
+    elif prio != 100:
         attrs["prio"] = prio            # a generator that declares no priority gets the class default (100)
     cls = type(name, (Entire,), attrs)
     return cls(storage=genrun.STORAGE)
@@ -69,7 +77,8 @@ def run(ctx):
             pr = rnd.choice([x for x in (0, 0, 1, 2, 3, 5, 8, 50, 99, 100, 101) if (p, x) not in used])      # 0 and the class default 100 included
             used.add((p, pr))
             gs.append({"path": p, "prio": pr, "out": rnd.choice(outs), "reload": rnd.choice(["", "reload %d" % gi, "systemctl restart x"]),
-                       "safe": rnd.random() < 0.6, "name": "G%d" % gi})
+                       "safe": rnd.random() < 0.6, "name": "G%d" % gi, "supports": rnd.random() >= 0.15,
+                       "how": rnd.choice(["class", "class", "instance"])})
         old = {p: rnd.choice(olds) for p in paths + ["/etc/other"]}
         old = {p: c for p, c in old.items() if c is not None}
         orders = list(itertools.permutations(gs)) if len(gs) <= 3 else rnd.sample(list(itertools.permutations(gs)), 6)
@@ -77,10 +86,10 @@ def run(ctx):
             for rname in ("yes", "no", "force"):
                 safe = rnd.random() < 0.25
                 dev = genrun.Dev(hw, "pc%d" % k)
-                rec = {"id": "fd-%d" % len(recs), "gens": [{k2: g[k2] for k2 in ("path", "prio", "out", "reload", "safe")} for g in order],
+                rec = {"id": "fd-%d" % len(recs), "gens": [{k2: g[k2] for k2 in ("path", "prio", "out", "reload", "safe", "supports")} for g in order],
                        "oldp": list(old), "oldc": [old[p] for p in old], "reload": rname, "safe": safe}
                 try:
-                    res = run_file_generators([mk_gen(g["name"], g["path"], g["prio"], g["out"], g["reload"], g["safe"]) for g in order], dev)
+                    res = run_file_generators([mk_gen(g["name"], g["path"], g["prio"], g["out"], g["reload"], g["safe"], g["supports"], g["how"]) for g in order], dev)
                     # the full and the safe plan are asked of the same result object, in either order, and asked again (as annet.gen does)
                     calls = rnd.choice([("full", "safe"), ("safe", "full")])
                     plans = {c: res.new_files(safe=(c == "safe")) for c in calls}
